@@ -19,6 +19,8 @@ func init() {
 			"Not decided: completeness/order of what gocbcore and the server deliver; behaviour across vBuckets at run time.",
 		Assumptions: []string{"gocbcore calls the handlers of one vBucket's stream sequentially in server order", "reflect-based IsMetadata is decided in C14"},
 		Rules: []RuleDef{
+			{ID: "C03.R23", Text: "after a rollback only events at or below the position reached are filtered: a replayed snapshot announcement is installed whenever the gate passes, under no other condition, and an event outside the announced snapshot stops the client instead of being dropped (same rules as C06.R7 and C06.R2)", Run: func(c *Ctx, id string) { markerInstall(c, id); c06r2(c, id) }},
+			{ID: "C03.R22", Text: "a re-opened stream continues where delivery stands, so nothing is delivered twice: openStream reads offsets[vbID] when it is called, every attempt anew — no request remembered from Open (same rule as C12.R3)", Run: c12r3},
 			{ID: "C03.R1", Text: "document handler → deliver → listener → forwarder → ConsumeEvent is a chain of plain synchronous calls (no go/defer hop, no channel, select, timer)", Run: c03r1},
 			{ID: "C03.R2", Text: "exactly once: handler delivers ⇔ canForward ∧ ¬skip ∧ inSnapshot; deliver→listener once ⇔ ¬closed; listener arm→forwarder once; forwarder→ConsumeEvent(payload) once ⇔ ¬IsMetadata", Run: c03r2},
 			{ID: "C03.R3", Text: "filters: IsMetadata ⇔ key has one of the two reserved prefixes (C14.R2); isBeforeSkipWindow ⇔ SkipUntil≠nil ∧ SkipUntil.After(eventTime); convertToCollectionName returns the configured entry or \"_default\"", Run: c03r3},
@@ -36,6 +38,7 @@ func init() {
 			{ID: "C03.R16", Text: "no wake-up an event waits for can be lost: a non-blocking send is only ever made on a channel that every make() creates with a buffer", Run: lossySignals},
 			{ID: "C03.R17", Text: "nothing stands between the observer and the consumer but the handlers themselves: no wrapper around the listener or the consumer that is not a proven pass-through (same rules as C20.R19 and C20.R20)", Run: func(c *Ctx, id string) { decoratorsTransparent()(c, id); noNewLayers(c, id) }},
 			{ID: "C03.R18", Text: "a persisted-sequence report is never ignored: the threshold is raised by every report, whatever the state of the stream request (same rule as C07.R3)", Run: c07r3},
+			{ID: "C03.R21", Text: "every event the observer forwards reaches the stream listener: the listener handed to the observer constructor is the stream own listener, a method value (same rule as C16.R25)", Run: observerCallbacksBound},
 			{ID: "C03.R19", Text: "the catch-up filter, which drops events, is armed only by the completion of a rollback re-request, and the branch id is set only where a stream request was confirmed", Run: observerStateSetters},
 			{ID: "C03.R20", Text: "below 5.5.0 a stream that ends by itself does not wait for a close token: the token channel has one blocking send and one blocking receive, the receive under the ending flag (same rule as C18.R8)", Run: serialCloseTokens},
 			{ID: "C03.R6", Text: "the delivery switch is thrown only by the stream's close: observer.closed is written only by Observer.Close, which is called only from Stream.Close (a reopened stream reuses its observer)", Run: switchOwner},
